@@ -42,7 +42,7 @@ def char_class_complement_ok(pattern):
 class C18(Prop):
     id = "C18"
     contract_modules = ["lexer", "transpiler"]
-    extra_keys = ["vyxal/lexer.py::tokenise", "vyxal/transpile.py::transpile_token"]
+    extra_keys = ["vyxal/lexer.py::tokenise", "vyxal/transpile.py::transpile_token", "vyxal/helpers.py::from_base_alphabet", "vyxal/helpers.py::uncompress_num", "vyxal/helpers.py::uncompress_str"]
     trusted_base = ["CPython repr(str) yields one string literal; int formatting yields -?[0-9]+", "re.sub with a negated character class is a character filter", "z3 5.1 / cvc5 1.0.3 (unsat answers)"]
     paper_steps = ["every place where transpile.py interpolates a value into its output is enumerated from the ast and must be claimed by the table SITES with its class (constant position or sanitised identifier); tokenise == lex (proved) with the two token-text lemmas gives the character sets of names and numbers; everything else in the output is template text from the element table"]
 
@@ -158,7 +158,7 @@ class C18(Prop):
         from vyxal.transpile import transpile
 
         names = self.whitelist()
-        alpha = ['"', "'", "\\", "\n", "[", "]", "(", ")", "^", "`", ":", ";", "a", "b", "1", "0", " ", "|", "_", ".", "#", "{", "}"]
+        alpha = ['"', "'", "\\", "\n", "[", "]", "(", ")", "^", "`", ":", ";", "a", "b", "1", "0", " ", "|", "_", ".", "#", "{", "}", "\t", "é"]
         positions = ["`{}`", "‛{}", "\\{}", "→{}", "←{}", "({}|1)", "@{};", "@{}|1;", "→f @{};", "@f:{}|1;", "@f:a:{}|1;", "@f:{}:{}|1;", "λ{}|1;", "«{}«", "»{}»", "⁺{}", "{}"]
         n = 0
         maxlen = 2 if tier != "thorough" else 3
